@@ -357,7 +357,7 @@ def case_patterns(famname, inp):
             pats.add("timer@expiry.fire+store-down")
         if inp.get("racer") == "timer" and inp.get("point") != "expiry.fire" and inp.get("shutdown") == "cad":
             pats.add("timer-inside+cad")
-        if inp.get("racer") == "feedstart" and store_down:
+        if inp.get("racer") == "feedstart" and inp.get("shutdown") == "cad":
             pats.add("feedstart@feed.preregister+store-down")
     elif famname == "sched":
         acts = inp.get("acts", [])
